@@ -173,6 +173,12 @@ func (s *Stmt) text() string {
 			return s.callText()
 		}
 		return w + " = " + s.callText()
+	case "o": // observe an array element in a global
+		return fmt.Sprintf("O_ = O_ %s[\"k\"]", v)
+	case "m": // membership test
+		return fmt.Sprintf("if (\"k\" in %s) M_ = M_ \"%s\"", v, s.Tag)
+	case "f": // for-in: count the keys
+		return fmt.Sprintf("for (K_ in %s) N_ = N_ \"%s\"", v, s.Tag)
 	case "p": // dump of a global at the end of an executable program
 		if s.Form == 0 {
 			return fmt.Sprintf("print \"%s\", length(%s), %s[\"k\"]", v, v, v)
@@ -220,6 +226,12 @@ func (s *Stmt) events() []Event {
 			return []Event{use(v, TUnknown), use(v, TArray)}
 		}
 		return []Event{use(v, TScalar)}
+	case "o":
+		return []Event{use("O_", TScalar), use("O_", TScalar), use(v, TArray)}
+	case "m":
+		return []Event{use(v, TArray), use("M_", TScalar), use("M_", TScalar)}
+	case "f":
+		return []Event{use("K_", TScalar), use(v, TArray), use("N_", TScalar), use("N_", TScalar)}
 	}
 	panic("stmt kind " + s.Kind)
 }
